@@ -172,6 +172,32 @@ Definition cascade_case_ok (c : list xelem * list (list attr) * list (AId * opti
   let m := build_chain xs in
   chain_eqb (rev m) impl && forallb (find_eqb m) finds.
 
+(* whole documents for the correspondence: elements in document (pre-)order with the index of their
+   parent element (None = child of the root node); returns the resolved lists in the same order *)
+Fixpoint build_doc_from (items : list (option nat * xelem)) (acc : list (list attr * list (list attr)))
+  : list (list attr) :=
+  match items with
+  | [] => map fst acc
+  | (par, x) :: r =>
+      let anc := match par with
+                 | Some i => match nth_error acc i with Some (a, an) => a :: an | None => [] end
+                 | None => []
+                 end in
+      build_doc_from r (acc ++ [(build_attrs anc x, anc)])
+  end.
+Definition build_doc (items : list (option nat * xelem)) : list (list attr) := build_doc_from items [].
+Definition doc_case_ok (c : list (option nat * xelem) * list (list attr)) : bool :=
+  chain_eqb (build_doc (fst c)) (snd c).
+(* find_attribute correspondence: chain root first; (attribute, default, value observed in the tree) *)
+Definition find_case_ok (c : list xelem * list (AId * string * string)) : bool :=
+  match build_chain (fst c) with
+  | self :: anc =>
+      forallb (fun q => match q with
+                        | (a, d, w) => String.eqb (match find_value self anc a with Some v => v | None => d end) w
+                        end) (snd c)
+  | [] => false
+  end.
+
 (* ---- the per-name abstract cascade ------------------------------------------------------------
    What a single name sees: a sequence of candidate attributes (None = the source did not add
    anything); the state is the attribute currently stored under that name. *)
@@ -205,3 +231,69 @@ Definition step_first (st : option attr) (nw : option attr) : option attr :=
 Definition cascade_spec (anc : list (list attr)) (x : xelem) (a : AId) : option attr :=
   let s0 := fold_left step_first (flat_map (cand_attr anc (x_tag x) (x_ignore_ids x) a) (x_attrs x)) None in
   fold_left step (flat_map (cand_decl anc (x_tag x) a) (x_css x) ++ flat_map (cand_decl anc (x_tag x) a) (x_style x)) s0.
+
+(* ---- SVG 1.1 / CSS property table (hand-written from the specification's property index), against
+   which the generated classes are checked: `Inherited: no` and `Initial:` columns for the properties
+   usvg gives an `inherit` keyword or a fallback value. *)
+Definition spec_noninherited (a : AId) : bool :=
+  match a with
+  | A_AlignmentBaseline | A_BaselineShift | A_ClipPath | A_Display | A_DominantBaseline | A_Filter
+  | A_FloodColor | A_FloodOpacity | A_LightingColor | A_Mask | A_Opacity | A_Overflow
+  | A_StopColor | A_StopOpacity | A_TextDecoration | A_UnicodeBidi
+  | A_Transform | A_TransformOrigin | A_MixBlendMode | A_Isolation | A_MaskType | A_VectorEffect
+  | A_TextOverflow | A_BackgroundColor => true
+  | _ => false
+  end.
+Local Open Scope string_scope.
+Definition spec_initial (a : AId) : option string :=
+  match a with
+  | A_ImageRendering | A_ShapeRendering | A_TextRendering => Some "auto"
+  | A_ClipPath | A_Filter | A_MarkerEnd | A_MarkerMid | A_MarkerStart | A_Mask | A_Stroke
+  | A_StrokeDasharray | A_TextDecoration => Some "none"
+  | A_FontStretch | A_FontStyle | A_FontVariant | A_FontWeight | A_LetterSpacing | A_WordSpacing => Some "normal"
+  | A_Fill | A_FloodColor | A_StopColor => Some "black"
+  | A_FillOpacity | A_FloodOpacity | A_Opacity | A_StopOpacity | A_StrokeOpacity => Some "1"
+  | A_ClipRule | A_FillRule => Some "nonzero"
+  | A_BaselineShift => Some "baseline"
+  | A_ColorInterpolationFilters => Some "linearRGB"
+  | A_Direction => Some "ltr"
+  | A_Display => Some "inline"
+  | A_FontSize => Some "medium"
+  | A_Overflow => Some "visible"
+  | A_StrokeDashoffset => Some "0"
+  | A_StrokeLinecap => Some "butt"
+  | A_StrokeLinejoin => Some "miter"
+  | A_StrokeMiterlimit => Some "4"
+  | A_StrokeWidth => Some "1"
+  | A_TextAnchor => Some "start"
+  | A_Visibility => Some "visible"
+  | A_WritingMode => Some "lr-tb"
+  | _ => None
+  end.
+Local Close Scope string_scope.
+Definition opt_string_eqb (a b : option string) : bool :=
+  match a, b with Some x, Some y => String.eqb x y | None, None => true | _, _ => false end.
+(* boolean checkers (also used to search for a counterexample when the proof breaks) *)
+Definition noninherit_entry_ok (a : AId) : bool :=
+  implb (is_presentation a && allows_inherit_value a) (Bool.eqb (is_non_inheritable a) (spec_noninherited a)).
+Definition initial_entry_ok (a : AId) : bool := opt_string_eqb (inherit_default a) (spec_initial a).
+
+(* ---- font-size resolution (units.rs: resolve_font_size), for the `inherit` findings -------------
+   The chain lists the specified font-size of each element from the outermost to the element itself. *)
+Local Open Scope Q_scope.
+Inductive absunit := UIn | UCm | UMm | UPt | UPc.
+Inductive fsval := FsPx (n : Q) | FsAbs (u : absunit) (n : Q) | FsEm (n : Q) | FsEx (n : Q) | FsPct (n : Q).
+Definition fs_step (dpi parent : Q) (v : fsval) : Q :=
+  match v with
+  | FsPx n => n
+  | FsAbs UIn n => fs_In n dpi | FsAbs UCm n => fs_Cm n dpi | FsAbs UMm n => fs_Mm n dpi
+  | FsAbs UPt n => fs_Pt n dpi | FsAbs UPc n => fs_Pc n dpi
+  | FsEm n => fs_Em n parent
+  | FsEx n => fs_Ex n parent
+  | FsPct n => fs_Percent n parent
+  end.
+Definition font_size (dpi base : Q) (chain : list (option fsval)) : Q :=
+  fold_left (fun fs o => match o with Some v => fs_step dpi fs v | None => fs end) chain base.
+(* KnownClass: the specified value depends on the context it is resolved in *)
+Definition fs_relative (v : fsval) : bool :=
+  match v with FsEm _ | FsEx _ | FsPct _ => true | _ => false end.
